@@ -53,9 +53,9 @@ CLAIMED = {
     technique='Coq proof + correspondence',
     design='6 C12'),
  'C13': dict(
-    text='Theorems about the cache wrappers as state machines (exact popitem eviction of caching.py at any capacity; functools.lru_cache over-approximated by arbitrary forgetting): every answer after any history equals the pure function, the invariant is kept, nested caches compose; key soundness of the repaired key (positional/keyword spellings bind alike), with the pinned tree\'s key refuted as a theorem; a Sid-object key never hits a plain-string entry. Tie: histories in single implementation processes (colliding pools, all spellings, both path configurations in either order, capacity 2-4, several hash seeds) compared call by call with the pure model, and a sample with fresh processes; a disagreement is replayed in a fresh process to produce the failing history.',
-    note=TB + 'The wiring (which function sits behind which wrapper) is validated by the history correspondence, not derived from the source. Interpreter start-up state is not modelled; fresh-process comparison is sampled.',
-    technique='Coq proof (invariant by induction over call histories) + history correspondence + fresh-process replay',
+    text='Theorems about the cache wrappers as state machines (exact popitem eviction of caching.py at any capacity; functools.lru_cache over-approximated by arbitrary forgetting): every answer after any history equals the pure function, the invariant is kept, nested caches compose; key soundness of the repaired key (positional/keyword spellings bind alike), with the pinned tree\'s key refuted as a theorem; a Sid-object key never hits a plain-string entry. The wrappers are DATA: tools/extract_caching.py translates spil/util/caching.py (python ast, fail-closed) on every run into one descriptor per decorator (key form, eviction, storing policy, keyword forwarding, capacity) and lists every decorated function of the source; the generated Coq file proves that the descriptors are of an accepted shape and that every cached function uses one of them, and the theorems (transparency after any history at the source capacity, key soundness, the rejected shapes refuted) are stated for every accepted descriptor. Tie: histories in single implementation processes (colliding pools, all spellings, both path configurations in either order, capacity 2-4, several hash seeds) compared call by call with the pure model, and a sample with fresh processes; a disagreement is replayed in a fresh process to produce the failing history.',
+    note=TB + 'tools/extract_caching.py is part of the trusted base (it recognises exactly the statement shapes listed in Cache/Desc.v and fails closed on anything else). That the body behind a wrapper is a pure function of its arguments is what the history correspondence checks. Interpreter start-up state is not modelled; fresh-process comparison is sampled.',
+    technique='Coq proof (invariant by induction over call histories, for every accepted wrapper descriptor) + translator from caching.py to descriptors + history correspondence + fresh-process replay',
     design='6 C13'),
  'C14': dict(
     text='Theorems: == is uri equality, equal Sids have equal repr (hash argument), == with a string is string equality, __lt__ is a strict total order on strings; frame theorem over an explicit object store: no sequence of operations (Sids sharing cached dictionaries, copies handed out, callers mutating every container they hold) changes the fields an existing Sid refers to; the dictionary returned by fields is a fresh object. Tie: pairs incl. same-string Sids of different forced types (==, hash, set, dict, sorted) and mutation histories with re-observation and identity probes on the implementation.',
